@@ -478,3 +478,9 @@ Definition run_obs2 (chunk : nat)
   let '(s1, c1, sk1, tm1, lg1, lim1) := a in
   let '(s2, c2, sk2, tm2, lg2, lim2) := b in
   VList (wobs chunk (init_world2 s1 c1 sk1 tm1 lg1 lim1 s2 c2 sk2 tm2 lg2 lim2) hist).
+
+(* the same observations for a request whose method / content type make .POST parse the body ([f] = true) or not *)
+Definition run_obs_form (chunk : nat) (f : bool) (s : bytes) (c : option Z) (sk : bool) (tm : option bool) (lg : bool)
+           (lim : Z) (hist : list step) : val :=
+  let w := init_world s c sk tm lg lim in
+  VList (wobs chunk (mkWorld (wheap w) (map (fun r => set_form r f) (wreqs w))) hist).
